@@ -213,7 +213,8 @@ func c08(e *Env) {
 	}
 	f.p.OpsPerClient = perClient
 	//                 query prep exec batch
-	f.p.Kinds = []int{0, 0, 8, 2}
+	f.p.Kinds = []int{0, 0, 8, 4}
+	f.p.PreparedBatches = true
 	if shape == 1 && c.Choose("midrestart", 2) == 1 {
 		f.faults = []*trigFault{{at: len(w.AttemptOrder) + 1 + c.Choose("restartat", perClient), kind: 3}}
 	}
